@@ -235,3 +235,45 @@ fn c10_a2s_wrong_unit_update_panics() {
     let _ = s.update();
     kani::cover!(true, "unreach: returned normally");
 }
+
+//@ob fn="<AccelerationToState<G,E> as Updatable>::update" at=src/streams/converters.rs:153 prop=C10 clause="how the computed terms are combined (Quantity * and / replaced by recording stand-ins, + is the real Quantity addition): second sample: velocity = the first product (((a_old + a_new)/2)*dt); later: velocity = old velocity + first product, position = (old position, if any) + second product (((v_old + v_new)/2)*dt), bit-identical; acceleration and time are the sample's"
+#[kani::proof]
+#[kani::stub(<Quantity as Mul<Quantity>>::mul, rec_q_mul)]
+#[kani::stub(<Quantity as Div<Quantity>>::div, rec_q_div)]
+fn c10_a2s_terms_combined() {
+    let d: Datum<Quantity> = kani::any();
+    let mut inp = Scripted::new(Ok(Some(d)));
+    let mut s = any_st(rf(&mut inp));
+    kani::assume(inv(&s) && pre_ok(&s, &Ok(Some(d))));
+    kani::assume(s.update.is_some());
+    let (old_vel, old_pos): (Option<Quantity>, Option<Quantity>) = match &s.update {
+        Some(u0) => match &u0.update_1 { Some(u1) => (Some(u1.vel), u1.update_2), None => (None, None) },
+        None => (None, None),
+    };
+    rec_reset();
+    let r = s.update();
+    assert!(r == Ok(()));
+    match &s.update {
+        Some(u0) => {
+            assert!(u0.last_update_time == d.time && u0.acc.beq(&d.value));
+            match (&u0.update_1, old_vel) {
+                (Some(u1), None) => {
+                    assert!(rec_counts() == (1, 1));
+                    assert!(fsame(u1.vel.value, rec_mul(0)) && u1.update_2.is_none());
+                }
+                (Some(u1), Some(v)) => {
+                    assert!(rec_counts() == (2, 2));
+                    assert!(fsame(u1.vel.value, v.value + rec_mul(0)));
+                    match (u1.update_2, old_pos) {
+                        (Some(p1), Some(p0)) => assert!(fsame(p1.value, p0.value + rec_mul(1))),
+                        (Some(p1), None) => assert!(fsame(p1.value, rec_mul(1))),
+                        _ => assert!(false),
+                    }
+                }
+                _ => assert!(false),
+            }
+        }
+        None => assert!(false),
+    }
+    reach!();
+}
